@@ -61,8 +61,13 @@ Definition take_push (q : queue) (it : item) : nat * queue :=
   (length (slots q), {| slots := slots q ++ [SPend it]; npop := npop q |}).
 Definition slot_released (q : queue) (cap p : nat) : bool :=
   if (p <? cap)%nat then true else match nth_error (slots q) (p - cap) with Some (SDone _) => true | _ => false end.
-Definition fill (q : queue) (p : nat) (it : item) : queue :=
-  {| slots := set_nth p (SFull it) (slots q); npop := npop q |}.
+(* the ticket holder writes its item: the slot already records which item that is *)
+Definition fill (q : queue) (p : nat) : queue :=
+  {| slots := match nth_error (slots q) p with
+              | Some (SPend it) => set_nth p (SFull it) (slots q)
+              | _ => slots q
+              end;
+     npop := npop q |}.
 Definition take_pop (q : queue) : nat * queue := (npop q, {| slots := slots q; npop := S (npop q) |}).
 Definition pop_ready (q : queue) (k : nat) : option (item * queue) :=
   match nth_error (slots q) k with
@@ -222,7 +227,7 @@ Definition step_ext (c : config) (s : st) (t : nat) (th : thread) : option st :=
     end
   | EFill p it =>
     if slot_released (gq s) (global_slots c) p
-    then Some (set_thread (note_accept (set_gq s (fill (gq s) p it)) it false) t (next_op th))
+    then Some (set_thread (note_accept (set_gq s (fill (gq s) p)) it false) t (next_op th))
     else None
   | EStopStore =>
     let s1 := set_running s false in
@@ -238,7 +243,7 @@ Definition step_ext (c : config) (s : st) (t : nat) (th : thread) : option st :=
     Some (set_thread (set_gq s q) t (goto th (EStopFill i p)))
   | EStopFill i p =>
     if slot_released (gq s) (global_slots c) p
-    then Some (set_thread (set_gq s (fill (gq s) p (IMark stop_marker_type))) t (goto th (stop_loop c (i + 1))))
+    then Some (set_thread (set_gq s (fill (gq s) p)) t (goto th (stop_loop c (i + 1))))
     else None
   | EStopJoin k =>
     if (nworkers c =? 0)%nat then Some (set_thread (note_stop_returned s) t (next_op th))
@@ -291,7 +296,7 @@ Definition step_worker (c : config) (s : st) (t w : nat) (th : thread) : option 
     Some (set_thread (set_gq s q) t (goto th (WFill id rest p ch)))
   | WFill id rest p ch =>
     if slot_released (gq s) (global_slots c) p
-    then Some (set_thread (note_accept (set_gq s (fill (gq s) p (IFun ch))) (IFun ch) false) t (goto th (WRun id rest)))
+    then Some (set_thread (note_accept (set_gq s (fill (gq s) p)) (IFun ch) false) t (goto th (WRun id rest)))
     else None
   | _ => None
   end.
@@ -314,7 +319,7 @@ Definition step_bal (c : config) (s : st) (t : nat) (th : thread) : option st :=
     let '(p, q) := take_push (gq s) it in Some (set_thread (set_gq s q) t (goto th (BFill k p it)))
   | BFill k p it =>
     if slot_released (gq s) (global_slots c) p
-    then Some (set_thread (set_gq s (fill (gq s) p it)) t (goto th (BSweep k)))
+    then Some (set_thread (set_gq s (fill (gq s) p)) t (goto th (BSweep k)))
     else None
   | _ => None
   end.
